@@ -33,6 +33,10 @@ TRUSTED = ["harness/build.py", "observe.pkg_json"]
 
 # ----------------------------------------------------------------------------------------------- generator
 
+# a leaf without terminals (a fill / marker cell): still one instance per occurrence in the flat module
+FILL = {"k": "leaf", "kind": ".Fill", "ports": [], "params": [], "py": {"k": "ext", "name": "Fill"}}
+
+
 def gen_hier(rng, opts=None):
     opts = opts or {}
     nmods = rng.randint(2, 5)
@@ -59,14 +63,16 @@ def gen_hier(rng, opts=None):
             sigs.append(s)
             return s["n"]
 
-        for _ in range(rng.randint(1, 4)):
+        # (a sub-module may also have no instances at all: a stub with ports only; in some designs every sub-module is one)
+        stub = k < nmods - 1 and (opts.get("stubs") == "all" or (opts.get("stubs") and rng.random() < 0.35))
+        for _ in range(0 if stub else rng.randint(1, 4)):
             # children: earlier modules (deep chains more likely) or leaves
             if mods and rng.random() < (0.75 if k == nmods - 1 else 0.55):
                 child = rng.choice(mods[-2:]) if rng.random() < 0.7 else rng.choice(mods)
                 of = {"k": "module", "name": child["name"]}
                 ports = [(s["n"], s["w"]) for s in child["sigs"] if s["port"]]
             else:
-                leaf = rng.choice(gen_design.LEAVES)
+                leaf = rng.choice(gen_design.LEAVES + ([FILL] if opts.get("fill") else []))
                 of = copy.deepcopy(leaf)
                 ports = [(p["n"], p["w"]) for p in leaf["ports"]]
             iname = fresh("i")
@@ -182,8 +188,8 @@ def adversarial(rng, design):
             other = rng.choice([i for i in m["insts"] if i is not inst])
             if other["of"]["k"] == "module":
                 oc = by[other["of"]["name"]]
-                if oc["insts"]:
-                    head, tail = ci["n"].split(":", 1)
+                head, tail = ci["n"].split(":", 1)
+                if oc["insts"] and all(i["n"] != tail for i in oc["insts"]) and all(i["n"] != f"{inst['n']}:{head}" for i in m["insts"]):
                     other["n"] = f"{inst['n']}:{head}"
                     rng.choice(oc["insts"])["n"] = tail
     else:
@@ -404,7 +410,9 @@ def make_cases(rng, n):
     cases = []
     for k in range(n):
         r = rng.random()
-        d = gen_hier(rng, {"extras": r < 0.25, "slices": ("full" if r < 0.35 else "mixed") if 0.25 <= r < 0.45 else None})
+        r2 = rng.random()
+        d = gen_hier(rng, {"extras": r < 0.25, "slices": ("full" if r < 0.35 else "mixed") if 0.25 <= r < 0.45 else None,
+                           "fill": r2 < 0.3, "stubs": "all" if r2 > 0.92 else (r2 > 0.7)})
         cases.append({"design": d, "style": ("proc", "class", "gen")[k % 3], "stream": "hierarchies"})
         if rng.random() < 0.6 and whole_signal(d):
             a = adversarial(rng, d)
